@@ -346,6 +346,23 @@ def _warm(obj):
     return any(k.startswith(WIRE_PREFIX) for k in d)
 
 
+_IUPAC = "ACGTNWSMKRYBDHV"
+
+
+def _thrash_value_tables(serial, n):
+    """The other caller of a flood step also uses the small value classes with many distinct values (any IUPAC codon is a
+    legal Codon): whatever process-wide table interns or memoises them with a bound gets its entries evicted."""
+    from inscripta.biocantor.gene.codon import Codon
+
+    k = len(_IUPAC)
+    for j in range(min(n, 400)):
+        x = (serial * 7 + j) % (k * k * k)
+        try:
+            Codon(_IUPAC[x // (k * k)] + _IUPAC[(x // k) % k] + _IUPAC[x % k])
+        except Exception:
+            pass
+
+
 def world_main(plan):
     """Runs in the world child: execute the whole history, return per-step records."""
     from inscripta.biocantor.parent.parent import Parent
@@ -362,6 +379,7 @@ def world_main(plan):
             for i in range(st["n"]):
                 Parent(id=f"flood-{flood_serial}")
                 flood_serial += 1
+            _thrash_value_tables(flood_serial, st["n"])
             after = _parent_cache_info()
             measured = hasattr(Parent, "cache_info")
             recs.append({"k": k, "t": t, "evicted": max(0, before[2] + st["n"] - after[2]) if measured else 0, "pc": after})
